@@ -215,6 +215,16 @@ class BindContextBase:
         """Return True if is currently participating in a binding process."""
         return not isinstance(self.state, _IS_NOT_BINDING_STATES)
 
+    async def _send_bind_cmd(self, cmd: Command) -> Packet:
+        """Send a binding Command and return its own Packet."""
+
+        pkt: Packet = await self._dev._async_send_cmd(  # type: ignore[assignment]
+            cmd, priority=Priority.HIGH, qos=BINDING_QOS
+        )
+        if pkt._hdr != cmd.tx_header:  # the peer's answer overtook the (lost) echo
+            pkt = Message._from_cmd(cmd)._pkt
+        return pkt
+
     def rcvd_msg(self, msg: Message) -> None:
         """Pass relevant Messages through to the state processor."""
         if msg.code in (Code._1FC9, Code._10E0):
@@ -288,9 +298,7 @@ class BindContextRespondent(BindContextBase):
         if not _DBG_DISABLE_PHASE_ASSERTS:  # TODO: should be in test suite
             assert Message._from_cmd(cmd).payload["phase"] == BindPhase.ACCEPT
 
-        pkt: Packet = await self._dev._async_send_cmd(  # type: ignore[assignment]
-            cmd, priority=Priority.HIGH, qos=BINDING_QOS
-        )
+        pkt = await self._send_bind_cmd(cmd)
 
         self.state.cast_accept_offer()
         return pkt
@@ -374,9 +382,7 @@ class BindContextSupplicant(BindContextBase):
         if not _DBG_DISABLE_PHASE_ASSERTS:  # TODO: should be in test suite
             assert Message._from_cmd(cmd).payload["phase"] == BindPhase.TENDER
 
-        pkt: Packet = await self._dev._async_send_cmd(  # type: ignore[assignment]
-            cmd, priority=Priority.HIGH, qos=BINDING_QOS
-        )
+        pkt = await self._send_bind_cmd(cmd)
 
         # await state._fut
         self.state.cast_offer()
@@ -401,9 +407,7 @@ class BindContextSupplicant(BindContextBase):
         if not _DBG_DISABLE_PHASE_ASSERTS:  # TODO: should be in test suite
             assert Message._from_cmd(cmd).payload["phase"] == BindPhase.AFFIRM
 
-        pkt: Packet = await self._dev._async_send_cmd(  # type: ignore[assignment]
-            cmd, priority=Priority.HIGH, qos=BINDING_QOS
-        )
+        pkt = await self._send_bind_cmd(cmd)
 
         await self.state.cast_confirm_accept()
         return pkt
@@ -411,9 +415,7 @@ class BindContextSupplicant(BindContextBase):
     async def _cast_addenda(self, accept: Message, cmd: Command) -> Packet:
         """Supp casts an Addenda (the final 10E0 command)."""
 
-        pkt: Packet = await self._dev._async_send_cmd(  # type: ignore[assignment]
-            cmd, priority=Priority.HIGH, qos=BINDING_QOS
-        )
+        pkt = await self._send_bind_cmd(cmd)
 
         await self.state.cast_addenda()
         return pkt
